@@ -13,6 +13,19 @@ FIRST = {  # outcome of the first run, before any strengthening, and what was st
  "C18/m1": ("missed by C18 (C17 reported it: F8_ignored_keywords)", "C18 proof module now carries the F8 obligation 'every schema keyword is modelled'; well-formed generator draws free-form strings (permissions of length 0-12 over r/w/m, paths, options, arguments, ...)"),
  "C19/m2": ("missed by quick", "cli stream: the validate tool is run with one to three documents (valid and invalid in any order) and on standard input; model: exit status and output lines over the list of documents"),
  "C20/m1": ("missed by quick", "reconf stream: fixed histories closing the watcher and setting it up again during a shortage for a directory that does not exist; after every history a configured but missing directory is created with a Spec and must be picked up"),
+ "C12/m3": ("missed by quick", "F9 extraction records early returns of the entry point as checkpoints (`retOK`: the mutex is not held there); race stream: caches without any Spec directory"),
+ "C13/m3": ("missed by quick", "cache stream: every fifth layout also through an auto-refresh cache (explicit Refresh() on an up-to-date cache)"),
+ "C14/m3": ("missed by quick", "purity stream: whole-Spec image cases (edits of every kind at Spec and device level, several injections into OCI specs of different users; cache image unchanged, every injection equals a fresh cache's)"),
+ "C14/m4": ("missed by quick", "same whole-Spec image cases (non-zero process users, nodes without uid/gid)"),
+ "C19/m3": ("missed by quick", "cli stream: two thirds of the layouts are error-free (the tool stops at the first cache error), overlapping glob patterns that actually match ('*' does not cross '/'), device-level hooks"),
+ "C20/m3": ("missed by quick", "reconf stream: file-system changes as history steps (new Spec file, removed Spec file), Configure with the options the cache already has"),
+ "C05/m4": ("missed by quick", "validate stream: annotation maps over the size limit in total with every entry within it; exactly at and one byte over the limit"),
+ "C08/m4": ("missed by quick", "crash stream: annotation maps whose keys the schema's patternProperties do not cover ('', newline, blank) with values of every JSON type, both levels, both encodings"),
+ "C09/m4": ("missed by quick", "codec stream: strings that look like references or templates ($HOME, ${X}, $1, $(..), backticks, %s, ~user, {{.X}})"),
+ "C10/m4": ("reported without a failing input (F6 temporary-name fact broke; two concurrent writers of one name are outside the property's quantifier)", ""),
+ "C11/m4": ("missed by quick", "watch stream: files with an old modification time moved or linked into the directory"),
+ "C16/m4": ("missed by quick", "names stream: after write / remove / remove again, the same Spec is written again under the same name (no refresh in between)"),
+ "C18/m4": ("missed by C18 (C05 reported it)", "C18's judge uses the library's observed acceptance (not the model's); typed Specs for every defect kind; mount defects combined with mount types"),
 }
 rows = []
 for d in sorted(glob.glob("/verif/seeded/C*/m*")):
